@@ -57,6 +57,14 @@ CHECKS.update({
             "DESIGN.md section 5 C04"),
 })
 
+CHECKS.update({
+    "C08": ("other",
+            "symbolic execution (symx/z3) of the real evaluate_condition/exec_* on a fully symbolic recording store; statement shapes enumerated; per path set-inclusion of recorded accesses in the declared sets",
+            "Bounded symbolic checking: each statement shape is executed by the real interpreter methods with every store value symbolic, so all conditional-expression branches, short-circuits, index ranges and loop trip counts are explored as solver-decided forks; on every path the recorded reads/writes must be inside get_read_variables()/get_written_variables() (loop counters aside) and map_expressions(identity) must not change the sets.",
+            "Trusted: z3, symx proxies, the recording dict. Bounds: curated + seeded random statements, expression depth<=3, <=2 loops with bounds 0..2, arrays of length 3, <=300 paths per statement.",
+            "DESIGN.md section 5 C08"),
+})
+
 NOT_APPLICABLE = {
 }
 
